@@ -478,6 +478,9 @@ def main(argv):
             # a property is assigned, deleted, and its NAME comes back (added again with other values / another property renamed to it)
             fixed_.append([("add", "bdry", "A"), ("add", "bdry", "B"), ("assign", e_, "prop", "A"), ("del", "bdry", "A"), ("add", "bdry", "A")])
             fixed_.append([("add", "bdry", "A"), ("add", "bdry", "B"), ("assign", e_, "prop", "A"), ("del", "bdry", "A"), ("rename", "bdry", "B", "A")])
+        # a name is assigned BEFORE a property of that name exists, then the property is defined
+        fixed_.append([("add", "bdry", "B"), ("assign", ("seg", 0), "prop", "A"), ("add", "bdry", "A")])
+        fixed_.append([("add", "bdry", "B"), ("assign", ("arc", 0), "prop", "C"), ("add", "bdry", "C")])
         for t in range(nana):
             seq, have, created = [], [], 0
             L = rng.randint(3, 9)
@@ -541,8 +544,22 @@ def main(argv):
                 continue
             va, vb = [float(x) for x in m1.groups()], [float(x) for x in m2.groups()]
             sc_ = max([abs(x) for x in va + vb] + [1.0])
+            # was a name assigned while no property carried it, and did a property of that name appear later?  (own key: known finding)
+            early, have_ = set(), set()
+            abd = False
+            for op in seq:
+                if op[0] == "add":
+                    abd = abd or op[2] in early
+                    have_.add(op[2])
+                elif op[0] == "del":
+                    have_.discard(op[2])
+                elif op[0] == "rename":
+                    abd = abd or op[3] in early
+                    have_.discard(op[2]); have_.add(op[3])
+                elif op[3] is not None and op[3] not in have_:
+                    early.add(op[3])
             if any(abs(a_ - b_) > 1e-6 * sc_ for a_, b_ in zip(va, vb)):
-                ck.violation("analysis:other-association", "after the history %s the analysis run in the session applies other boundary properties than the file it saved: "
+                ck.violation("analysis:assigned-before-defined" if abd else "analysis:other-association", "after the history %s the analysis run in the session applies other boundary properties than the file it saved: "
                              "potentials next to line 0, line 1, the arc are %s in the session and %s when the saved file is analysed" % ([list(map(str, o)) for o in seq], va, vb),
                              dict(ops=[list(map(str, o)) for o in seq], lua=lines))
     finally:
